@@ -82,10 +82,12 @@ class Importance(CellModifierInput):
         if particle is None:
             particles = syntax_node.ParticleNode("imp particle", "n")
             particle = Particle.NEUTRON
+            # the blank importance of a new cell covers every particle of the problem
+            if self._problem:
+                particles.particles = self._problem.mode.particles
         else:
+            # a tree made for one particle is an entry for that particle only
             particles = syntax_node.ParticleNode("imp particle", particle.value.lower())
-        if self._problem:
-            particles.particles = self._problem.mode.particles
         classifier.particles = particles
         list_node = syntax_node.ListNode("imp data")
         list_node.append(self._generate_default_node(float, 0.0))
